@@ -848,7 +848,8 @@ def OP_DEF(tape: Tape, stack: Stack, cache: dict) -> None:
         def_data,
         callstack_limit=tape.callstack_limit,
         contracts=tape.contracts,
-        flags=tape.flags
+        flags=tape.flags,
+        plugins=tape.plugins
     )
     tape.definitions[def_handle] = subtape
     subtape.definitions = tape.definitions
@@ -890,7 +891,8 @@ def OP_IF(tape: Tape, stack: Stack, cache: dict) -> None:
             callstack_limit=tape.callstack_limit,
             callstack_count=tape.callstack_count,
             definitions={**tape.definitions},
-            contracts=tape.contracts
+            contracts=tape.contracts,
+            plugins=tape.plugins
         )
         run_tape(subtape, stack, cache, additional_flags=tape.flags)
         if 'returned' in cache:
@@ -917,6 +919,7 @@ def OP_IF_ELSE(tape: Tape, stack: Stack, cache: dict) -> None:
         callstack_count=tape.callstack_count,
         definitions={**tape.definitions},
         contracts=tape.contracts,
+        plugins=tape.plugins,
     )
     run_tape(subtape, stack, cache, additional_flags=tape.flags)
     if 'returned' in cache:
@@ -1177,6 +1180,7 @@ def OP_TRY_EXCEPT(tape: Tape, stack: Stack, cache: dict) -> None:
         callstack_count=tape.callstack_count,
         definitions={**tape.definitions},
         contracts=tape.contracts,
+        plugins=tape.plugins,
     )
 
     try:
@@ -1190,6 +1194,7 @@ def OP_TRY_EXCEPT(tape: Tape, stack: Stack, cache: dict) -> None:
             callstack_count=tape.callstack_count,
             definitions={**tape.definitions},
             contracts=tape.contracts,
+            plugins=tape.plugins,
         )
         run_tape(subtape, stack, cache, additional_flags=tape.flags)
 
@@ -1268,7 +1273,7 @@ def OP_LOOP(tape: Tape, stack: Stack, cache: dict) -> None:
         loop_def, callstack_limit=tape.callstack_limit,
         callstack_count=tape.callstack_count,
         definitions=tape.definitions, flags=tape.flags,
-        contracts=tape.contracts
+        contracts=tape.contracts, plugins=tape.plugins
     )
 
     while bytes_to_bool(condition):
